@@ -238,6 +238,10 @@ class Ev:
         if isinstance(a0, Obj) and name in LAYOUT.get(a0.kind, []) + ["data_mut"] and len(args) == 1:
             nm = "data" if name == "data_mut" else name
             return [(P, a0.fields[LAYOUT[a0.kind].index(nm)])]
+        dest_ty = s.b["locals"][t["dest"]["local"]] if not t["dest"]["proj"] else ""
+        if dest_ty == "bool" and fn["krate"] != "toodee":
+            s._opaque = getattr(s, "_opaque", 0) + 1
+            return [(P, Cond("atom", atom="call:%s#%d" % (name, t["span"]["lo"])))]
         # crate-local: inline
         if fn["krate"] == "toodee":
             cand = s.all.get(path)
@@ -610,6 +614,15 @@ def r_layout(f):
             R.inst(b.ident, "literal " + what, okl)
             if not okl:
                 R.fail(b.ident, "literal:%s" % what.split(" (want")[0], "%s builds %s" % (b.ident, what), b.where())
+    # a view's backing slice is (rows-1)*stride + cols long - never a whole number of strides when cols < stride: splitting it
+    # with chunks_exact*(stride) silently drops the last row
+    for b in f.fn_bodies:
+        if (b.self_head or "").replace("&mut ", "").replace("&", "") not in ("TooDeeView", "TooDeeViewMut"):
+            continue
+        for bi, t, fn in b.calls():
+            if fn and re.match(r"^core::slice::<impl \[T\]>::(chunks_exact|chunks_exact_mut|rchunks_exact|rchunks_exact_mut|array_chunks)", fn["path"]):
+                R.inst(b.ident, "no chunks_exact* over the view's strided backing slice", False)
+                R.fail(b.ident, "chunks_exact", "%s splits the view's backing slice with %s: that slice ends with the last row (length (rows-1)*stride + cols), so for a window narrower than its parent the final, shorter chunk - the last row - is silently skipped" % (b.ident, fn["name"]), b.where(t["span"]))
     R.require_floor(nfun, 30, "accessor functions")
     R.require_floor(nacc, 30, "unchecked accesses")
     if ninc * 4 > max(nfun + ninc, 1):
